@@ -441,7 +441,7 @@ def check_case(case, ctx):
         if not res.ok and res.type in ("InvalidOperation",):
             raise Violation("benign/refused", "whitelisted call refused: %s -> %r" % (src, res), detail=case["ctx"])
         if invoked:
-            raise RuntimeError("harness: benign expression touched a canary: %s" % src)
+            raise Violation("benign/canary-invoked", "%s (whitelisted calls only) invoked %r" % (src, invoked), detail=case["ctx"])
     elif case["kind"] == "read":
         # the Type matcher walks nested records through the record protocol (rec._desc.getfields(..)); on a canary
         # standing in for a nested record that shows up as a call - it is the library's own traversal, not the expression's
